@@ -8,6 +8,7 @@ import (
 	"bytes"
 	"fmt"
 	"io"
+	"strings"
 	"testing"
 	"time"
 
@@ -85,6 +86,7 @@ type vfC16Builder struct {
 	kinds map[string]bool
 	noise int
 	excl  int
+	noHash bool // status texts of the current line carry no '#'
 }
 
 func (b *vfC16Builder) kind(k string) { b.kinds[k] = true }
@@ -265,11 +267,23 @@ func (b *vfC16Builder) winLine(payload string, allowF12 bool, ctrlCAt int) (f12 
 func (b *vfC16Builder) tmuxStatusPair() string {
 	rt := b.rt
 	content := rapid.SampledFrom([]string{"", "[0] 0:bash*", " 12:34 27-Sep ", "\x1b[m\x1b[7mstatus\x1b[27m", "a#b", "\r\n", "x\r\ny"}).Draw(rt, "status")
+	if b.noHash {
+		content = strings.ReplaceAll(content, "#", "+")
+	}
 	return "\x1bP=1s\x1b\\" + content + "\x1bP=2s\x1b\\"
 }
 
 func (b *vfC16Builder) tmuxLine(payload string, ctrlCAt int) {
 	rt := b.rt
+	// a status string may also land inside the marker itself ("#DA<status>TA:"). The marker is then found by its '#' alone, so in
+	// such a line no status text carries a '#' of its own (one that does would be taken for the marker: out of the documented shape)
+	inMarker := -1
+	b.noHash = false
+	if rapid.IntRange(0, 7).Draw(rt, "status_in_marker") == 0 {
+		inMarker = rapid.IntRange(0, 4).Draw(rt, "status_in_marker_at")
+		b.noHash = true
+	}
+	defer func() { b.noHash = false }()
 	pre := rapid.IntRange(0, 3).Draw(rt, "npre")
 	for i := 0; i < pre; i++ {
 		switch rapid.IntRange(0, 3).Draw(rt, "prekind") {
@@ -292,6 +306,11 @@ func (b *vfC16Builder) tmuxLine(payload string, ctrlCAt int) {
 		b.out.WriteByte(payload[i])
 		if i == len(payload)-1 {
 			break
+		}
+		if i == inMarker && i < len(payload)-2 {
+			b.out.WriteString(b.tmuxStatusPair())
+			b.kind("status_pair_inside_marker")
+			b.noise++
 		}
 		if rapid.IntRange(0, 4).Draw(rt, "has_noise") != 0 {
 			continue
